@@ -87,8 +87,8 @@ def main(argv=None) -> int:
             print(f'{prop} {tier}: {n_inst} rule instances, {len(ctx.violations)} violation(s), '
                   f'{len(ctx.known)} known finding(s), {wall:.2f}s')
             return 1
-        print(f'{prop} {tier}: OK {n_inst} rule instances hold '
-              f'({len(ctx.known)} known finding(s)), {wall:.2f}s'
+        print(f'{prop} {tier}: OK {n_inst - len(ctx.known)} rule instances hold, '
+              f'{len(ctx.known)} known finding(s), {wall:.2f}s'
               + (f'; selftest {selftest["summary"]}' if selftest else ''))
         return 0
     except AnalysisError as e:
